@@ -5,7 +5,7 @@ import (
 	"net"
 	"net/netip"
 	"net/url"
-	"strings"
+	"sync"
 
 	"golang.org/x/tools/go/ssa"
 )
@@ -84,6 +84,12 @@ func (x *Exec) aggToURL(p *Pointer) *url.URL {
 
 var urlStruct *types.Struct
 
+var (
+	netipMu    sync.Mutex
+	netipAddrs []netip.Addr
+	netipIdx   map[netip.Addr]int
+)
+
 func urlStructOf(x *Exec) *types.Struct {
 	if urlStruct != nil {
 		return urlStruct
@@ -107,22 +113,71 @@ func urlIntrinsic(name string, fn *ssa.Function) intrinsicFn {
 			}
 			return tup(&Pointer{Obj: x.newObj(x.urlToAgg(u, urlStructOf(x)), "url.URL")}, nilErr)
 		}
-	case "github.com/modelcontextprotocol/go-sdk/internal/util.IsLoopback":
-		// executed natively on the concrete host string (net.SplitHostPort / netip.ParseAddr are std parsers)
+	// util.IsLoopback itself runs as real SSA; only the std parsers below it are native (concrete strings).
+	case "net.SplitHostPort":
 		return func(x *Exec, f *ssa.Function, a []Value) Value {
-			addr := x.strOf(a[0])
-			host, _, err := net.SplitHostPort(addr)
+			h, p, err := net.SplitHostPort(x.strOf(a[0]))
 			if err != nil {
-				host = strings.Trim(addr, "[]")
+				return tup(mkStr(""), mkStr(""), x.newErr(err.Error()))
 			}
-			if host == "localhost" {
-				return tTrue
-			}
-			ip, err := netip.ParseAddr(host)
+			return tup(mkStr(h), mkStr(p), nilErr)
+		}
+	case "net/netip.ParseAddr":
+		// the Addr is an opaque value: its second word holds an index into the worker's table of parsed addresses
+		return func(x *Exec, f *ssa.Function, a []Value) Value {
+			z := x.zero(fn.Signature.Results().At(0).Type()).(*Agg)
+			ip, err := netip.ParseAddr(x.strOf(a[0]))
 			if err != nil {
-				return tFalse
+				return tup(z, x.newErr(err.Error()))
 			}
-			return mkBool(ip.IsLoopback())
+			netipMu.Lock()
+			n := netipIdx[ip]
+			if n == 0 {
+				netipAddrs = append(netipAddrs, ip)
+				n = len(netipAddrs)
+				if netipIdx == nil {
+					netipIdx = map[netip.Addr]int{}
+				}
+				netipIdx[ip] = n
+			}
+			netipMu.Unlock()
+			z.Elems[0].(*Agg).Elems[1] = mkInt(int64(n))
+			return tup(z, nilErr)
+		}
+	case "(net/netip.Addr).IsLoopback", "(net/netip.Addr).IsValid", "(net/netip.Addr).Is4", "(net/netip.Addr).Is6", "(net/netip.Addr).IsUnspecified", "(net/netip.Addr).IsPrivate":
+		return func(x *Exec, f *ssa.Function, a []Value) Value {
+			t, ok := a[0].(*Agg).Elems[0].(*Agg).Elems[1].(*Term)
+			if !ok || !t.IsConc() {
+				x.abort("UNSUPPORTED", "netip.Addr not produced by ParseAddr")
+			}
+			var ip netip.Addr
+			netipMu.Lock()
+			if i := t.C.(int64); i > 0 && int(i) <= len(netipAddrs) {
+				ip = netipAddrs[i-1]
+			}
+			netipMu.Unlock()
+			switch name {
+			case "(net/netip.Addr).IsLoopback":
+				return mkBool(ip.IsLoopback())
+			case "(net/netip.Addr).IsValid":
+				return mkBool(ip.IsValid())
+			case "(net/netip.Addr).Is4":
+				return mkBool(ip.Is4())
+			case "(net/netip.Addr).Is6":
+				return mkBool(ip.Is6())
+			case "(net/netip.Addr).IsUnspecified":
+				return mkBool(ip.IsUnspecified())
+			}
+			return mkBool(ip.IsPrivate())
+		}
+	case "(*net/url.URL).Parse":
+		return func(x *Exec, f *ssa.Function, a []Value) Value {
+			ref := x.strOf(a[1])
+			u, err := x.aggToURL(a[0].(*Pointer)).Parse(ref)
+			if err != nil {
+				return tup((*Pointer)(nil), x.newErr("parse "+ref+": "+err.Error()))
+			}
+			return tup(&Pointer{Obj: x.newObj(x.urlToAgg(u, urlStructOf(x)), "url.URL")}, nilErr)
 		}
 	case "(*net/url.URL).String":
 		return func(x *Exec, f *ssa.Function, a []Value) Value { return mkStr(x.aggToURL(a[0].(*Pointer)).String()) }
